@@ -77,6 +77,11 @@ def gen_case(rng, supervised, large_scale=False):
     # (the bounds constrain v^T M v: they live on the SQUARED distance scale)
     s2 = scale * scale
     bounds = s2 * np.array([float(np.round(np.percentile(dd ** 2, 30) / s2 * 8) / 8 + 0.125), float(np.round(np.percentile(dd ** 2, 70) / s2 * 8) / 8 + 0.25)])
+  bounds_arg = None if bounds is None else bounds.copy()
+  if bounds is not None and mode != 'prior_feasible' and scale == 1.0 and rng.random() < 0.4:
+    # bounds typed as INTEGERS (a tuple / list / int array of whole numbers is a documented way to give them)
+    bounds = np.ceil(bounds) + np.array([0.0, 1.0])
+    bounds_arg = [[int(v) for v in bounds], tuple(int(v) for v in bounds), bounds.astype(np.int64)][int(rng.integers(3))]
   ev = {'ev': 'ItmlFit', 'supervised': bool(supervised), 'mode': mode, 'prior_kind': prior_kind, 'exc': '',
         'gamma_inf': bool(np.isinf(gamma)), 'gamma': dy(0.0 if np.isinf(gamma) else gamma), 'max_iter': max_iter,
         'tight_tol': bool(tol <= 1e-9), 'n_iter': 0, 'L': [], 'M0': [], 'P': [], 'P0': [], 'chol': [], 'v': [], 'y': [],
@@ -91,10 +96,10 @@ def gen_case(rng, supervised, large_scale=False):
         ev['prior_array_used_before'] = True
       if supervised:
         est = gen.ITML_Supervised(gamma=gamma, max_iter=max_iter, tol=tol, prior=prior_arg, n_constraints=n_c, random_state=seed)
-        cap = run_with_frame(lambda: est.fit(X.copy(), y.copy(), bounds=None if bounds is None else bounds.copy()))
+        cap = run_with_frame(lambda: est.fit(X.copy(), y.copy(), bounds=bounds_arg))
       else:
         est = gen.ITML(gamma=gamma, max_iter=max_iter, tol=tol, prior=prior_arg, random_state=seed)
-        cap = run_with_frame(lambda: est.fit(pairs.copy(), lab.copy(), bounds=None if bounds is None else bounds.copy()))
+        cap = run_with_frame(lambda: est.fit(pairs.copy(), lab.copy(), bounds=bounds_arg))
       L = np.asarray(est.components_)
       M = L.T.dot(L)
       # the DOCUMENTED prior, computed without the library where the documentation defines it (the harness's own copy of
